@@ -10,6 +10,7 @@ Usage:
 
 import argparse
 import os
+import re
 import shutil
 import sys
 
@@ -144,7 +145,8 @@ def _migrate_csv_to_rules(csv_file: str, config_dir: str, backup: bool = True) -
         if os.path.exists(settings_path):
             with open(settings_path, 'r', encoding='utf-8') as f:
                 settings_content = f.read()
-            if 'merchants_file:' not in settings_content:
+            # Look for an actual top-level key, not a mention in a comment
+            if not re.search(r'^merchants_file\s*:', settings_content, re.MULTILINE):
                 _write_file_atomic(
                     settings_path,
                     settings_content
